@@ -233,7 +233,13 @@ class G34(cv.Gen):
             fal = ("call", fn, False, [self.equery()])
             bang = ("call", r.choice(["int", "string", "bool"]), True, [self.equery()])
             return ("assigninf", tgt, r.choice([("tvar", "ev", []), ("noop",)]), ("block", [bang, fal]), cv.DEFAULTS[fn])
-        if c < 0.85:
+        if c < 0.78:
+            # a used array whose first elements are calls without `!` (they toggle the level's expectation inside blocks)
+            call = r.choice([("call", r.choice(["is_null", "is_string"]), False, [self.pure(d - 1)]),
+                             ("op", "err", ("call", r.choice(cv.ASSERT_FNS), False, [self.equery()]), self.pure(0))])
+            arr = ("arr", [call] + [self.child(d - 1) if r.random() < 0.4 else self.pure(0) for _ in range(r.randint(1, 2))])
+            return ("assign", tgt, ("obj", [("list".encode().hex(), arr)]) if r.random() < 0.6 else arr)
+        if c < 0.88:
             return ("assign", tgt, ("if", [self.boolean(d - 1)], [self.discard(d - 1), self.pure(d - 1)],
                                     [self.discard(d - 1), self.pure(d - 1)] if r.random() < 0.6 else None))
         return ("call", "is_null", False, [("block", [self.discard(d - 1), self.pure(d - 1)])])
@@ -257,6 +263,16 @@ def rand_program(rng):
     g.defined = []
     g.marker = 0
     out = [g.stmt(3) for _ in range(rng.randint(1, 5))]
+    if rng.random() < 0.15:
+        # a block value assigned early, a used array starting with a call without `!` assigned later: the level
+        # bookkeeping of the first must not leak into the second
+        blk = ("assign", ("text", "event", [f("w1")]), ("block", [g.discard(1), g.pure(1)]))
+        call = rng.choice([("call", "is_string", False, [g.pure(1)]),
+                           ("op", "err", ("call", "string", False, [g.equery()]), ("lit", js("unknown")))])
+        lst = ("assign", ("text", "event", [f("w2")]),
+               ("obj", [("list".encode().hex(), ("arr", [call, ("lit", js("static"))] + ([g.pure(1)] if rng.random() < 0.4 else [])))]))
+        out.insert(rng.randint(0, len(out)), blk)
+        out.append(lst)
     c = rng.random()
     if c < 0.6:
         out.append(("qext", "event", []))
